@@ -587,15 +587,12 @@ class ProdParser:
                     break
 
                 except ParseError as e:
-                    # needed???
-                    if stopIfNoMoreMatch:  # and token:
-                        # print "\t2stopIfNoMoreMatch", e, token, prod
-                        tokenizer.push(token)
-                        stopall = True
-
-                    else:
-                        wellformed = False
-                        self._log.error(f'{name}: {e}: {token!r}')
+                    # Missing (or another ParseError): a production that has
+                    # started is incomplete. That is an error also if
+                    # stopIfNoMoreMatch is set: only a clean NoMatch at the
+                    # end of a complete part hands the token back
+                    wellformed = False
+                    self._log.error(f'{name}: {e}: {token!r}')
                     break
 
                 else:
